@@ -39,6 +39,7 @@ from liquid2.exceptions import UnknownFilterError
 from liquid2.expression import Expression
 from liquid2.limits import MAX_STR_INT
 from liquid2.limits import to_int
+from liquid2.token import RESERVED_WORDS
 from liquid2.unescape import escape
 from liquid2.unescape import unescape
 
@@ -533,11 +534,25 @@ class Path(Expression):
                 self.path.append(segment)
 
     def __str__(self) -> str:
+        return self._str(nested=False)
+
+    def _str(self, *, nested: bool) -> str:
         it = iter(self.path)
-        buf = [str(next(it))]
+        root = next(it)
+        if isinstance(root, str):
+            # A root that does not read as the name of a variable needs brackets.
+            # Inside brackets, every word is the name of a variable.
+            if RE_PROPERTY.fullmatch(root) and (nested or root not in RESERVED_WORDS):
+                buf = [root]
+            else:
+                buf = [f"[{escape(root)}]"]
+        elif isinstance(root, Path):
+            buf = [f"[{root._str(nested=True)}]"]
+        else:
+            buf = [f"[{root}]"]
         for segment in it:
             if isinstance(segment, Path):
-                buf.append(f"[{segment}]")
+                buf.append(f"[{segment._str(nested=True)}]")
             elif isinstance(segment, str):
                 if RE_PROPERTY.fullmatch(segment):
                     buf.append(f".{segment}")
